@@ -200,6 +200,42 @@ def w_rewrite(job):
     return n, fails
 
 
+# ------------------------------------------------------------------ the same source written again with other options
+RO_SOURCES = ["export function f(int a) -> int { int t = a; t = t + 1; return t * 2; }\n",
+              "export function f(float x) -> float { float y = x * 2; return y + 1; }\n",
+              "export function f(int a) -> int { return a + 1; }\n"]
+
+
+def w_reoptions(job):
+    """One directory, one output path: nslc.py compiles the SAME source to it again and again with a sequence of -O levels; after
+    every run the file has to list like the module this source gives at the level of that run."""
+    from ..nslapi import listing
+    from nsl import LinearIR
+    si, seq, outname = job
+    src = RO_SOURCES[si]
+    fails, n = [], 0
+    d = tempfile.mkdtemp(prefix="nslmc-ro-", dir=snapshot._tmp_root())
+    try:
+        open(os.path.join(d, "p.nsl"), "w").write(src)
+        for step, o in enumerate(seq):
+            code, _ = checkers.run_nslc(["p.nsl", "-o", outname, "-O", str(o)], d)
+            n += 1
+            want = compile_src(src, {"optimize": bool(o)})
+            try:
+                got = listing(LinearIR.FilesystemModuleLoader().Load(os.path.join(d, outname)))
+            except BaseException as e:
+                got = f"<<{type(e).__name__}: {e}>>"
+            if code != 0 or not want.ok or got != listing(want.module):
+                other = compile_src(src, {"optimize": not o})
+                what = "file-still-holds-the-other-level" if other.ok and got == listing(other.module) else "file-differs"
+                fails.append({"key": f"C17|reoptions|{what}|step={min(step, 1)}", "reoptions": [si, list(seq), outname], "source": src,
+                              "expected": f"after nslc.py -O {o} the file lists like the module compiled at that level", "observed": f"exit {code}; " + str(got)[:300]})
+                break
+    finally:
+        shutil.rmtree(d, ignore_errors=True)
+    return n, fails
+
+
 _family_run = run
 
 
@@ -248,6 +284,18 @@ def run(tier, seed):
     out["coverage"]["evaluations"] += m
     out["coverage"]["distinct_nontrivial"] += m
     out["coverage"]["per_family"]["rewrite(sequences of <=3 versions of an imported module written to the same file x -O x loader)"] = m
+    jobs = [(si, q, nm) for si in range(len(RO_SOURCES)) for L in (1, 2, 3) for q in itertools.product((0, 1), repeat=L) for nm in ("p.nslir", "p.bin")]
+    m = 0
+    for a, fl in pool.pmap(w_reoptions, jobs):
+        m += a
+        for f in fl:
+            out["coverage"]["failing_cases_per_key"][f["key"]] = out["coverage"]["failing_cases_per_key"].get(f["key"], 0) + 1
+            if f["key"] not in seen:
+                out["failures"].append(f)
+                seen.add(f["key"])
+    out["coverage"]["evaluations"] += m
+    out["coverage"]["distinct_nontrivial"] += m
+    out["coverage"]["per_family"]["reoptions(the same source compiled to the same path with every sequence of <=3 optimisation levels)"] = m
     return out
 
 
@@ -255,6 +303,12 @@ _family_replay = replay
 
 
 def replay(rec, verbose=True):
+    if "reoptions" in rec:
+        si, q, nm = rec["reoptions"]
+        n, fl = w_reoptions((si, tuple(q), nm))
+        if verbose:
+            print(fl)
+        return any(f["key"] == rec["key"] for f in fl)
     if "rewrite" in rec:
         q, o, how = rec["rewrite"]
         n, fl = w_rewrite((tuple(q), o, how))
